@@ -26,7 +26,8 @@ for (const job of jobs) {
   trace = []; unhandled = []; globalThis.__late = [];
   let term = 'ok', exp = '';
   try {
-    if (job.mode === 'import') { const ns = await import(pathToFileURL(job.file).href); exp = exportsRecord(ns, 'import'); }
+    if (job.mode === 'import-seq') { const recs = []; for (const f of job.files) { const ns = await import(pathToFileURL(f).href); recs.push(exportsRecord(ns, 'import')); } exp = recs.join(' | '); }
+    else if (job.mode === 'import') { const ns = await import(pathToFileURL(job.file).href); exp = exportsRecord(ns, 'import'); }
     else if (job.mode === 'require') { const m = require(job.file); exp = exportsRecord(m, 'require'); }
     else { vm.runInThisContext(fs.readFileSync(job.file, 'utf8'), { filename: job.file }); if (job.global) exp = exportsRecord(vm.runInThisContext(job.global), 'global'); }
   } catch (e) { term = 'throw:' + ser(e, 0, null); }
